@@ -19,11 +19,11 @@ RULE = (
     "with duplicate and transitively redundant constraints; gaps in {0,1,3,U(0,20)}; desired positions tied or U(-100,100); weights "
     "unit / {0.5,1,2,3} / 1e-2..1e10; scales 1 or {0.5,1,2,4}; cyclic variants (15% of edges reversed). Plus, in situ, every layer "
     "problem (chain + 1e10-weight walls) created by Force.compute() on seeded label sets. Each solve() is judged: feasibility "
-    "(>= -1e-6), returned cost == cost of positions, optimality gap <= 1e-3*(1+cost) by a dual bound, operations <= 100(n+m)+5e3. "
+    "(>= -1e-6), returned cost == cost of positions, optimality gap <= 1e-3 + 1e-9*cost by a dual bound, operations <= 100(n+m)+5e3. "
     "Non-trivial = at least one merge happened and at least one constraint is tight at the solution; distinct = distinct instance."
 )
 ASSUMPTIONS = [
-    "tolerances: feasibility 1e-6, optimality 1e-3*(1+cost) (the solver deliberately stops at multipliers >= -1e-4 and cost changes <= 1e-4)",
+    "tolerances: feasibility 1e-6, optimality 1e-3 absolute + 1e-9*cost for the float noise of heavy variables (the solver deliberately stops at multipliers >= -1e-4 and cost changes <= 1e-4)",
     "termination is restated as a logical budget of merges+splits+mostViolated calls per solve(); a wall-clock watchdog firing is inconclusive",
     "the library's own code is only used to propose candidate points; every bound is re-evaluated exactly by the oracle",
 ]
